@@ -22,10 +22,15 @@ FORMATS = [("html", 0), ("latex", 2), ("beamer", 3), ("memoir", 4)]
 EXTS = [mmd.EXT_DEFAULT, mmd.EXT_DEFAULT & ~mmd.EXT["SMART"], mmd.EXT["NOTES"] | mmd.EXT["CRITIC"] | mmd.EXT["NO_LABELS"] | mmd.EXT["PROCESS_HTML"]]
 C, S = mmd.EXT["COMPLETE"], mmd.EXT["SNIPPET"]
 
+# other spellings of rendering-control keys (case, blanks and tabs inside the key and before the colon are not significant): variant -> canonical
+SPELLINGS = {b"base header level: 2": CONTROL[0], b"BaseHeaderLevel: 2": CONTROL[0], b"Base\tHeader Level: 2": CONTROL[0], b"Base Header Level\t: 2": CONTROL[0], b"Base  Header\t Level : 2": CONTROL[0],
+             b"LANGUAGE : de": CONTROL[3], b"Language\t: de": CONTROL[3], b"Quotes\tLanguage: fr": CONTROL[4], b"quoteslanguage:\tfr": CONTROL[4], b"LaTeX\tMode: memoir": CONTROL[5], b"HTML\tHeader\tLevel: 3": CONTROL[1]}
+
 def meta_blocks():
     """(label, block bytes, has_non_control_key, only_unrelated_keys)"""
     out = [("none", b"", False, True)]
     for k in CONTROL: out.append(("control", k + b"\n", False, False))
+    for k in SPELLINGS: out.append(("control-spelling", k + b"\n", False, False))
     out.append(("control-all", b"\n".join(CONTROL[:3]) + b"\n", False, False))
     for k in OTHER: out.append(("other", k + b"\n", True, True))
     for a, b in itertools.combinations(range(0, len(OTHER), 3), 2): out.append(("other-pair", OTHER[a] + b"\n" + OTHER[b] + b"\n", True, True))
@@ -70,6 +75,10 @@ def make_case(metas, bods):
             ref_doc = mb.rstrip(b" \t") + b"\n" + body
             if mmd.convert(ref_doc, ext | S, f) != snip:
                 v.append(("wrapper:whitespace-separator-changes-body:" + fname, "a metadata block ended by a line of blanks renders differently from the same block ended by an empty line", case_d))
+        if label == "control-spelling":
+            canon = SPELLINGS[mb[:-1]] + b"\n\n" + body
+            if mmd.convert(canon, ext | S, f) != snip or mmd.convert(canon, ext, f) != dflt:
+                v.append(("wrapper:control-key-spelling-changes-rendering:" + fname, "the control key spelled %r renders differently from %r" % (mb[:-1], SPELLINGS[mb[:-1]]), case_d))
         if unrelated and mb and b"[%" not in body and not re.match(rb"^[A-Za-z0-9][^\n:]*:", first_line):          # variable substitution is a documented channel from metadata into the body
             bare = mmd.convert(body, ext | S, f)
             if bare != snip:
